@@ -49,6 +49,8 @@ type funcContract struct {
 	noframe  bool
 	noinv    bool
 	where    string
+
+	autoLoopInv []clause // type invariants carried by every loop of the method
 }
 
 type specFunc struct {
@@ -164,6 +166,7 @@ func (cs *contractSet) applyInvariants() {
 			e := renameIdent(inv.e, inv.recvName, fc.recvName)
 			fc.requires = append(fc.requires, clause{src: inv.src + " [invariant]", e: e, label: fmt.Sprintf("pre:%d", len(fc.requires)+1), where: inv.where})
 			fc.ensures = append(fc.ensures, clause{src: inv.src + " [invariant]", e: e, label: fmt.Sprintf("post:inv%d", len(fc.ensures)+1), where: inv.where})
+			fc.autoLoopInv = append(fc.autoLoopInv, clause{src: inv.src + " [invariant]", e: e, where: inv.where})
 		}
 	}
 }
